@@ -16,6 +16,7 @@ import (
 	"context"
 	"errors"
 	"fmt"
+	"regexp"
 	"strconv"
 	"strings"
 
@@ -34,17 +35,18 @@ func init() { register(c03{}) }
 // ---- node language ----
 
 type n3 struct {
-	Kind  string // const trace probe sym throw do try wrap let
-	Src   string // const: lisp source; trace: tag
-	Val   string // const: canonical value
-	Site  int    // probe site index
-	Raw   bool   // probe-raw!
-	Wrap  string // wrap kind
-	Kids  []*n3  // do: exprs; throw/wrap: [x]; let: [val, body]; try: body exprs
-	Catch []*n3  // try: handler exprs (nil: no catch clause)
-	Fin   []*n3  // try: finally exprs (nil: no finally clause)
-	HasC  bool
-	HasF  bool
+	Kind       string // const trace probe sym tsym mprobe mthrow throw do try wrap let
+	RawPanicOK bool   // probe: an enclosing try body will recover a Go panic of a raw builtin
+	Src        string // const: lisp source; trace: tag
+	Val        string // const: canonical value
+	Site       int    // probe site index
+	Raw        bool   // probe-raw!
+	Wrap       string // wrap kind
+	Kids       []*n3  // do: exprs; throw/wrap: [x]; let: [val, body]; try: body exprs
+	Catch      []*n3  // try: handler exprs (nil: no catch clause)
+	Fin        []*n3  // try: finally exprs (nil: no finally clause)
+	HasC       bool
+	HasF       bool
 }
 
 var c03Consts = [][2]string{
@@ -73,30 +75,42 @@ func (g *c03Gen) trace(prefix string) *n3 {
 	return &n3{Kind: "trace", Src: ":" + prefix + strconv.Itoa(g.tags)}
 }
 
-func (g *c03Gen) probe() *n3 {
+func (g *c03Gen) probe(inBody bool) *n3 {
 	g.sites++
-	return &n3{Kind: "probe", Site: g.sites, Raw: g.tp.Chance(LaneWork, 1, 3)}
+	return &n3{Kind: "probe", Site: g.sites, Raw: g.tp.Chance(LaneWork, 1, 3), RawPanicOK: inBody}
 }
 
+var c03MacroThrowConsts = [][2]string{{"7", "7"}, {`"ms"`, `"ms"`}, {":mk", ":mk"}, {"[1 2]", "[1 2]"}, {"{:reason :arity}", "{:reason :arity}"}, {"nil", "nil"}}
+
 // expr generates an expression; inFin restricts to what finally bodies may contain.
-func (g *c03Gen) expr(depth int, inFin bool) *n3 {
+func (g *c03Gen) expr(depth int, inFin bool, inBody bool) *n3 {
 	g.nodes++
 	if inFin {
 		switch g.tp.Draw(LaneWork, 3) {
 		case 0:
 			return g.trace("f")
 		case 1:
-			return &n3{Kind: "sym"}
+			// what the catch symbol resolves to inside finally is observable through the trace
+			return &n3{Kind: "tsym"}
 		}
 		return g.constNode()
 	}
-	w := []int{4, 3, 3, 2, 3, 2, 4, 3, 1}
+	w := []int{4, 3, 3, 2, 3, 2, 4, 3, 1, 2, 1, 1}
 	if depth >= 5 || g.nodes > 60 {
 		w[5], w[6], w[7], w[8] = 0, 0, 0, 0
 	}
 	switch g.tp.Weighted(LaneWork, w) {
+	case 9:
+		return &n3{Kind: "tsym"}
+	case 10:
+		// a builtin failing at macro-expansion time
+		g.sites++
+		return &n3{Kind: "mprobe", Site: g.sites}
+	case 11:
+		c := c03MacroThrowConsts[g.tp.Draw(LaneWork, len(c03MacroThrowConsts))]
+		return &n3{Kind: "mthrow", Src: c[0], Val: c[1]}
 	case 0:
-		return g.probe()
+		return g.probe(inBody)
 	case 1:
 		return g.trace("t")
 	case 2:
@@ -114,34 +128,35 @@ func (g *c03Gen) expr(depth int, inFin bool) *n3 {
 	case 5:
 		n := &n3{Kind: "do"}
 		for i := 0; i < 2+g.tp.Draw(LaneWork, 2); i++ {
-			n.Kids = append(n.Kids, g.expr(depth+1, false))
+			n.Kids = append(n.Kids, g.expr(depth+1, false, inBody))
 		}
 		return n
 	case 6:
-		return g.try(depth + 1)
+		return g.try(depth+1, inBody)
 	case 7:
-		return &n3{Kind: "wrap", Wrap: c03Wraps[g.tp.Draw(LaneWork, len(c03Wraps))], Kids: []*n3{g.expr(depth+1, false)}}
+		return &n3{Kind: "wrap", Wrap: c03Wraps[g.tp.Draw(LaneWork, len(c03Wraps))], Kids: []*n3{g.expr(depth+1, false, inBody)}}
 	}
-	return &n3{Kind: "let", Kids: []*n3{g.constNode(), g.expr(depth+1, false)}}
+	return &n3{Kind: "let", Kids: []*n3{g.constNode(), g.expr(depth+1, false, inBody)}}
 }
 
-func (g *c03Gen) try(depth int) *n3 {
+// try generates a try form; inBody says whether some enclosing try body would recover a Go panic.
+func (g *c03Gen) try(depth int, inBody bool) *n3 {
 	n := &n3{Kind: "try"}
 	for i := 0; i < 1+g.tp.Draw(LaneWork, 3); i++ {
-		n.Kids = append(n.Kids, g.expr(depth, false))
+		n.Kids = append(n.Kids, g.expr(depth, false, true))
 	}
 	shape := g.tp.Weighted(LaneWork, []int{3, 2, 3, 1})
 	if shape == 0 || shape == 2 {
 		n.HasC = true
 		n.Catch = append(n.Catch, g.trace("h"))
 		for i := 0; i < 1+g.tp.Draw(LaneWork, 2); i++ {
-			n.Catch = append(n.Catch, g.expr(depth, false))
+			n.Catch = append(n.Catch, g.expr(depth, false, inBody))
 		}
 	}
 	if shape == 1 || shape == 2 {
 		n.HasF = true
 		for i := 0; i < 1+g.tp.Draw(LaneWork, 2); i++ {
-			n.Fin = append(n.Fin, g.expr(depth, true))
+			n.Fin = append(n.Fin, g.expr(depth, true, inBody))
 		}
 		// every finally is observable
 		n.Fin = append([]*n3{g.trace("fin")}, n.Fin...)
@@ -170,6 +185,12 @@ func (n *n3) render() string {
 		return "(probe! " + strconv.Itoa(n.Site) + ")"
 	case "sym":
 		return "e"
+	case "tsym":
+		return "(trace! (list :e e))"
+	case "mprobe":
+		return "(m-probe " + strconv.Itoa(n.Site) + ")"
+	case "mthrow":
+		return "(m-throw " + n.Src + ")"
 	case "throw":
 		return "(throw " + n.Kids[0].render() + ")"
 	case "do":
@@ -230,17 +251,31 @@ func init() {
 }
 
 type c03Rt struct {
-	plan  c03Plan
-	fired map[string]int
+	plan       c03Plan
+	fired      map[string]int
+	rawPanicOK map[int]bool // sites of raw builtins whose Go panic an enclosing try body recovers
+}
+
+// effective maps the planned fault of a site to what is injected there: a raw types.Func has no panic
+// recovery of its own, so its panics are injected only where an enclosing try body recovers them
+// (then malRecover turns the panic into the error), and never with a non-error value.
+func effectiveFault(f string, raw, rawPanicOK bool) string {
+	if f == "" {
+		return "ok"
+	}
+	if raw && f == "panic-val" {
+		return "err"
+	}
+	if raw && f == "panic-err" && !rawPanicOK {
+		return "err"
+	}
+	return f
 }
 
 func (rt *c03Rt) probe(site int, raw bool) (types.MalType, error) {
-	f := rt.plan[site]
-	if f == "" {
-		f = "ok"
-	}
-	if raw && (f == "panic-err" || f == "panic-val") {
-		f = "err" // a raw types.Func has no panic recovery: outside the statement
+	f := effectiveFault(rt.plan[site], raw, rt.rawPanicOK[site])
+	if raw && f == "panic-err" {
+		rt.fired["raw-panic-err"]++
 	}
 	rt.fired[f]++
 	switch f {
@@ -267,6 +302,18 @@ type m3 struct {
 	scope []string // bindings of e, innermost last
 }
 
+func (m *m3) failure(f string, site int) (string, bool, string) {
+	switch f {
+	case "err", "err-wrapped", "panic-err":
+		return "", true, sentinelStr(site)
+	case "panic-val":
+		return "", true, `"pv` + strconv.Itoa(site) + `"`
+	case "throw-val":
+		return "", true, "(+ " + strconv.Itoa(site) + " 1)"
+	}
+	return strconv.Itoa(site), false, ""
+}
+
 func sentinelStr(site int) string { return "#sentinel<" + strconv.Itoa(site) + ">" }
 
 // eval returns (value, thrown?, thrown object)
@@ -278,19 +325,15 @@ func (m *m3) eval(n *n3) (string, bool, string) {
 		m.trace = append(m.trace, n.Src)
 		return n.Src, false, ""
 	case "probe":
-		f := m.plan[n.Site]
-		if n.Raw && (f == "panic-err" || f == "panic-val") {
-			f = "err"
-		}
-		switch f {
-		case "err", "err-wrapped", "panic-err":
-			return "", true, sentinelStr(n.Site)
-		case "panic-val":
-			return "", true, `"pv` + strconv.Itoa(n.Site) + `"`
-		case "throw-val":
-			return "", true, "(+ " + strconv.Itoa(n.Site) + " 1)"
-		}
-		return strconv.Itoa(n.Site), false, ""
+		return m.failure(effectiveFault(m.plan[n.Site], n.Raw, n.RawPanicOK), n.Site)
+	case "mprobe":
+		return m.failure(effectiveFault(m.plan[n.Site], false, false), n.Site)
+	case "mthrow":
+		return "", true, n.Val
+	case "tsym":
+		v := "(:e " + m.scope[len(m.scope)-1] + ")"
+		m.trace = append(m.trace, v)
+		return v, false, ""
 	case "sym":
 		return m.scope[len(m.scope)-1], false, ""
 	case "throw":
@@ -342,7 +385,19 @@ func (m *m3) seq(ns []*n3) (string, bool, string) {
 
 // ---- canonical forms that know the sentinels ----
 
-func canon03(v types.MalType) string { return canonWith(v, err03) }
+// canon03 knows the sentinels. The message string "sentinel-N" is read as the sentinel too: a panic of a
+// raw builtin recovered by try reaches the handler as its message (mal.go chooses ErrorValue or the
+// message string); the statement does not promise more for raw builtins, so this is deliberately
+// not distinguished.
+func canon03(v types.MalType) string {
+	r := canonWith(v, err03)
+	if strings.Contains(r, `"sentinel-`) {
+		r = sentinelMsgRE.ReplaceAllString(r, "#sentinel<$1>")
+	}
+	return r
+}
+
+var sentinelMsgRE = regexp.MustCompile(`"sentinel-(\d+)"`)
 
 func err03(err error) string {
 	for i, s := range c03Sentinels {
@@ -368,6 +423,8 @@ func thrown03(err error) string {
 const c03Setup = `(do
   (def e :outer-e)
   (defmacro m-id (fn [x] x))
+  (defmacro m-probe (fn [i] (do (probe! i) i)))
+  (defmacro m-throw (fn [x] (throw x)))
   (def call1 (fn [f] (f)))
   (def call3 (fn [f] (call1 (fn [] (call1 f)))))
   nil)`
@@ -375,16 +432,16 @@ const c03Setup = `(do
 func (c03) Run(tp *Tape, opt RunOpt) *RunOut {
 	out := &RunOut{prop: "C03", Stats: map[string]int64{}}
 	g := &c03Gen{tp: tp}
-	root := g.try(0)
+	root := g.try(0, false)
 	// scope probe after the form: the catch variable must not be visible there
 	src := "(let [r " + root.render() + "] (list r e))"
 	ast := mustRead(src)
 
 	s := NewSim(&Tape{Replay: true}, SimCfg{StarveID: -1})
-	h := &Harness{S: s}
+	h := &Harness{S: s, Canon: canon03}
 	e := NewEnv()
 	h.Install(e)
-	rt := &c03Rt{fired: map[string]int{}}
+	rt := &c03Rt{fired: map[string]int{}, rawPanicOK: rawPanicSites(root)}
 	call.CallOverrideFN(e, "probe!", func(i int) (types.MalType, error) { return rt.probe(i, false) })
 	e.Set(types.Symbol{Val: "probe-raw!"}, types.Func{Fn: func(ctx context.Context, a []types.MalType) (types.MalType, error) {
 		return rt.probe(a[0].(int), true)
@@ -563,3 +620,28 @@ func c03Sig(root *n3, got, want string, wantThrown bool) string {
 }
 
 func throwLisp(v types.MalType) error { return lisperror.NewLispError(v, nil) }
+
+// rawPanicSites collects the probe sites at which a raw builtin's panic is recovered by an enclosing try body.
+func rawPanicSites(n *n3) map[int]bool {
+	m := map[int]bool{}
+	var walk func(x *n3)
+	walk = func(x *n3) {
+		if x == nil {
+			return
+		}
+		if x.Kind == "probe" && x.RawPanicOK {
+			m[x.Site] = true
+		}
+		for _, k := range x.Kids {
+			walk(k)
+		}
+		for _, k := range x.Catch {
+			walk(k)
+		}
+		for _, k := range x.Fin {
+			walk(k)
+		}
+	}
+	walk(n)
+	return m
+}
